@@ -111,21 +111,21 @@ theorem relRender_eq (ds : List Digits) : relRender ds = (ds.map fun d => 46 :: 
   | nil => rfl
   | cons d ds ih => simp [relRender, ih]
 
+theorem M_dotdigits (p : Str) : ctx.M (.cat (Kinds.K ctx.kinds [Kinds.dot]) (Pep440Rx.digits ctx.kinds)) p ↔
+    ∃ d : Digits, digitsOk d = true ∧ (46 :: d) = p := by
+  simp only [M_cat, M_digits, ctx.M_K' kp_dot]
+  constructor
+  · rintro ⟨u, v, rfl, ⟨c, rfl, hc⟩, hv⟩
+    simp only [beq_iff_eq] at hc; subst hc
+    exact ⟨v, hv, rfl⟩
+  · rintro ⟨d, hd, rfl⟩
+    exact ⟨[46], d, rfl, ⟨46, rfl, by decide⟩, hd⟩
+
 theorem M_release {s} : ctx.M (Pep440Rx.release ctx.kinds) s ↔
     ∃ (d : Digits) (ds : List Digits), digitsOk d = true ∧ ds.all digitsOk = true ∧ d ++ relRender ds = s := by
-  have hpart : ∀ p, ctx.M (.cat (Kinds.K ctx.kinds [Kinds.dot]) (Pep440Rx.digits ctx.kinds)) p ↔
-      ∃ d : Digits, digitsOk d = true ∧ (46 :: d) = p := by
-    intro p
-    simp only [M_cat, M_digits, ctx.M_K' kp_dot]
-    constructor
-    · rintro ⟨u, v, rfl, ⟨c, rfl, hc⟩, hv⟩
-      simp only [beq_iff_eq] at hc; subst hc
-      exact ⟨v, hv, rfl⟩
-    · rintro ⟨d, hd, rfl⟩
-      exact ⟨[46], d, rfl, ⟨46, rfl, by decide⟩, hd⟩
   rw [Pep440Rx.release]
   simp only [Kinds.seq, M_cat, M_digits]
-  simp only [ctx.M_star_render (fun d : Digits => digitsOk d = true) (fun d => 46 :: d) hpart]
+  simp only [ctx.M_star_render (fun d : Digits => digitsOk d = true) (fun d => 46 :: d) ctx.M_dotdigits]
   constructor
   · rintro ⟨u, v, rfl, hu, ds, hds, rfl⟩
     exact ⟨u, ds, hu, by simpa [List.all_eq_true] using hds, by rw [relRender_eq]⟩
@@ -243,6 +243,8 @@ theorem M_local {s} : ctx.M (Pep440Rx.localLabel ctx.kinds) s ↔ ∃ l : Local,
     exact ⟨[43], _, rfl, ⟨43, rfl, by decide⟩, first, _, rfl, hl.1, rest,
       fun p hp => by simpa using hl.2 p hp, (restRender_eq rest).symm⟩
 
+end Ctx
+
 /-! ### assembly -/
 
 /-- `Valid` without the disambiguation clause: the trees of the Appendix B grammar -/
@@ -259,28 +261,6 @@ def Grammar (sp : Spelling) : Bool :=
 theorem valid_eq (sp : Spelling) : Valid sp = (Grammar sp && !ambiguous sp) := by
   obtain ⟨ws1, v, ep, rel0, rels, pre, post, dev, loc, ws2⟩ := sp
   cases v <;> cases ep <;> cases pre <;> cases post <;> cases dev <;> cases loc <;> rfl
-
-theorem M_version_grammar {s} :
-    ctx.M (Pep440Rx.version ctx.kinds) s ↔ ∃ sp : Spelling, Grammar sp = true ∧ render sp = s := by
-  have hpre := fun s => ctx.M_opt_render (s := s) (Group.ok PreWord.text) Group.render (fun p => ctx.M_pre)
-  have hpost := fun s => ctx.M_opt_render (s := s) Post.ok Post.render (fun p => ctx.M_post)
-  have hdev := fun s => ctx.M_opt_render (s := s) (Group.ok (fun _ : Unit => devText)) Group.render (fun p => ctx.M_dev)
-  have hloc := fun s => ctx.M_opt_render (s := s) Local.ok Local.render (fun p => ctx.M_local)
-  rw [Pep440Rx.version]
-  simp only [Kinds.seq, M_cat, M_ws, M_v, M_epoch, M_release, hpre, hpost, hdev, hloc]
-  constructor
-  · rintro ⟨ws1, _, rfl, hws1, _, _, rfl, ⟨v, hv, rfl⟩, _, _, rfl, ⟨ep, hep, rfl⟩, _, _, rfl,
-      ⟨rel0, rels, hrel0, hrels, rfl⟩, _, _, rfl, ⟨pre, hpre', rfl⟩, _, _, rfl, ⟨post, hpost', rfl⟩,
-      _, _, rfl, ⟨dev, hdev', rfl⟩, _, ws2, rfl, ⟨loc, hloc', rfl⟩, hws2⟩
-    refine ⟨⟨ws1, v, ep, rel0, rels, pre, post, dev, loc, ws2⟩, ?_, by simp [render]⟩
-    simp only [Grammar, Bool.and_eq_true]
-    exact ⟨⟨⟨⟨⟨⟨⟨⟨⟨hws1, hws2⟩, hv⟩, hep⟩, hrel0⟩, hrels⟩, hpre'⟩, hpost'⟩, hdev'⟩, hloc'⟩
-  · rintro ⟨⟨ws1, v, ep, rel0, rels, pre, post, dev, loc, ws2⟩, hg, rfl⟩
-    simp only [Grammar, Bool.and_eq_true] at hg
-    obtain ⟨⟨⟨⟨⟨⟨⟨⟨⟨hws1, hws2⟩, hv⟩, hep⟩, hrel0⟩, hrels⟩, hpre'⟩, hpost'⟩, hdev'⟩, hloc'⟩ := hg
-    exact ⟨ws1, _, rfl, hws1, _, _, rfl, ⟨v, hv, rfl⟩, _, _, rfl, ⟨ep, hep, rfl⟩, _, _, by simp,
-      ⟨rel0, rels, hrel0, hrels, rfl⟩, _, _, rfl, ⟨pre, hpre', rfl⟩, _, _, rfl, ⟨post, hpost', rfl⟩,
-      _, _, rfl, ⟨dev, hdev', rfl⟩, _, ws2, rfl, ⟨loc, hloc', rfl⟩, hws2⟩
 
 /-- the ambiguous tree `word` + `-N` has the same rendering as the tree where `-N` is the word's number -/
 theorem valid_of_grammar (sp : Spelling) (h : Grammar sp = true) :
@@ -309,6 +289,31 @@ theorem valid_of_grammar (sp : Spelling) (h : Grammar sp = true) :
             exact ⟨⟨⟨⟨⟨⟨⟨⟨⟨⟨hws1, hws2⟩, hv⟩, hep⟩, hrel0⟩, hrels⟩, hpre'.1, hpost'⟩, trivial⟩, hdev'⟩, hloc'⟩, trivial⟩
           · simp [render, optR, Group.render, Post.render, Sep.render]
   · exact ⟨sp, by rw [valid_eq, h]; simpa using ha, rfl⟩
+
+namespace Ctx
+variable (ctx : Ctx)
+
+theorem M_version_grammar {s} :
+    ctx.M (Pep440Rx.version ctx.kinds) s ↔ ∃ sp : Spelling, Grammar sp = true ∧ render sp = s := by
+  have hpre := fun s => ctx.M_opt_render (s := s) (Group.ok PreWord.text) Group.render (fun p => ctx.M_pre)
+  have hpost := fun s => ctx.M_opt_render (s := s) Post.ok Post.render (fun p => ctx.M_post)
+  have hdev := fun s => ctx.M_opt_render (s := s) (Group.ok (fun _ : Unit => devText)) Group.render (fun p => ctx.M_dev)
+  have hloc := fun s => ctx.M_opt_render (s := s) Local.ok Local.render (fun p => ctx.M_local)
+  rw [Pep440Rx.version]
+  simp only [Kinds.seq, M_cat, M_ws, M_v, M_epoch, M_release, hpre, hpost, hdev, hloc]
+  constructor
+  · rintro ⟨ws1, _, rfl, hws1, _, _, rfl, ⟨v, hv, rfl⟩, _, _, rfl, ⟨ep, hep, rfl⟩, _, _, rfl,
+      ⟨rel0, rels, hrel0, hrels, rfl⟩, _, _, rfl, ⟨pre, hpre', rfl⟩, _, _, rfl, ⟨post, hpost', rfl⟩,
+      _, _, rfl, ⟨dev, hdev', rfl⟩, _, ws2, rfl, ⟨loc, hloc', rfl⟩, hws2⟩
+    refine ⟨⟨ws1, v, ep, rel0, rels, pre, post, dev, loc, ws2⟩, ?_, by simp [render]⟩
+    simp only [Grammar, Bool.and_eq_true]
+    exact ⟨⟨⟨⟨⟨⟨⟨⟨⟨hws1, hws2⟩, hv⟩, hep⟩, hrel0⟩, hrels⟩, hpre'⟩, hpost'⟩, hdev'⟩, hloc'⟩
+  · rintro ⟨⟨ws1, v, ep, rel0, rels, pre, post, dev, loc, ws2⟩, hg, rfl⟩
+    simp only [Grammar, Bool.and_eq_true] at hg
+    obtain ⟨⟨⟨⟨⟨⟨⟨⟨⟨hws1, hws2⟩, hv⟩, hep⟩, hrel0⟩, hrels⟩, hpre'⟩, hpost'⟩, hdev'⟩, hloc'⟩ := hg
+    exact ⟨ws1, _, rfl, hws1, _, _, rfl, ⟨v, hv, rfl⟩, _, _, rfl, ⟨ep, hep, rfl⟩, _, _, by simp,
+      ⟨rel0, rels, hrel0, hrels, rfl⟩, _, _, rfl, ⟨pre, hpre', rfl⟩, _, _, rfl, ⟨post, hpost', rfl⟩,
+      _, _, rfl, ⟨dev, hdev', rfl⟩, _, ws2, rfl, ⟨loc, hloc', rfl⟩, hws2⟩
 
 /-- **the spec regex accepts exactly the renderings of valid spellings** -/
 theorem M_version_iff_spelling {s} :
